@@ -1058,6 +1058,33 @@ impl<Service: service::Service> Abandonable for SharedNode<Service> {
     }
 }
 
+/// The marker of a port that is stored next to the details of the owning [`Node`] and that is
+/// used to clean up the resources of the port after a crash.
+///
+/// The port tag lives inside the directory of the [`Node`]. When the port is the last owner of
+/// the [`SharedNode`], the [`Node`]s directory can only be removed after the port tag was
+/// removed. Therefore, the tag holds its own [`SharedNode`] handle that is released after the
+/// underlying storage.
+#[derive(Debug)]
+pub(crate) struct PortTag<Service: service::Service> {
+    // IMPORTANT!
+    // Fields of a rust struct are dropped in declaration order. The storage must be defined
+    // before the shared node so that the tag is removed before the node - and with it the
+    // directory that contains the tag - is removed.
+    pub(crate) storage: Service::StaticStorage,
+    shared_node: SharedNode<Service>,
+}
+
+impl<Service: service::Service> Abandonable for PortTag<Service> {
+    unsafe fn abandon_in_place(mut this: NonNull<Self>) {
+        let this = unsafe { this.as_mut() };
+        unsafe { Service::StaticStorage::abandon_in_place(NonNull::from_mut(&mut this.storage)) };
+        unsafe {
+            SharedNode::<Service>::abandon_in_place(NonNull::from_mut(&mut this.shared_node))
+        };
+    }
+}
+
 impl<Service: service::Service> SharedNode<Service> {
     pub(crate) fn config(&self) -> &Config {
         &self.state.details.config
@@ -1080,7 +1107,7 @@ impl<Service: service::Service> SharedNode<Service> {
         origin: &str,
         msg: &str,
         port_id: u128,
-    ) -> Result<Service::StaticStorage, StaticStorageCreateError> {
+    ) -> Result<PortTag<Service>, StaticStorageCreateError> {
         let name = FileName::new(port_id.to_string().as_bytes())
             .expect("A number is always a valid file name.");
 
@@ -1091,7 +1118,10 @@ impl<Service: service::Service> SharedNode<Service> {
         .has_ownership(true)
         .create(&[])
         {
-            Ok(static_storage) => Ok(static_storage),
+            Ok(storage) => Ok(PortTag {
+                storage,
+                shared_node: self.clone(),
+            }),
             Err(e) => {
                 fail!(from origin, with e,
                     "{msg} since the port tag could not be created. [{e:?}]");
